@@ -260,6 +260,15 @@ class Check:
         sys.exit(1 if self.violations else 0)
 
 
+def props(pid):
+    """(relative paths, module names, .vo targets) of every Props file of a property: Props/<ID>.v, Props/<ID>b.v, ..."""
+    import glob
+    rels = sorted(os.path.relpath(f, COQ) for f in glob.glob(os.path.join(COQ, "Props", pid + "*.v")))
+    rels = [r for r in rels if re.match(r"Props/%s[a-z]?\.v$" % pid, r)]
+    mods = [r[:-2].replace("/", ".") for r in rels]
+    return rels, mods, [r + "o" for r in rels]
+
+
 def theorems_of(*relpaths):
     """names of the Theorem/Corollary statements of Props files (comments stripped)"""
     names = []
